@@ -73,6 +73,39 @@ def gen_exact(rng):
             "fallback": fr(fb), "remaining": fr(rng.choice([None, Fraction(0), dy(rng), dy(rng, 0, 8)])), "r": fr(draw(rng))}
 
 
+def representable(q):
+    """q is a binary64 number (moderate exponents): a dyadic rational whose odd part fits 53 bits"""
+    q = Fraction(q)
+    if q == 0:
+        return True
+    d = q.denominator
+    if d & (d - 1):
+        return False
+    m = abs(q.numerator)
+    while m % 2 == 0:
+        m //= 2
+    return m.bit_length() <= 53
+
+
+def on_exact_grid(c):
+    """equal / token in the un-saturated regime: every intermediate of the strategy's arithmetic, in the order the code performs
+    it, is a binary64 number, so the float result is the exact rational.  Decided from the inputs alone (never from the observed
+    result).  Saturated cases (cap = max_s because base * g**n is far above it) are exact whatever the rounding of the power."""
+    k = c["kind"]
+    if k not in ("equal", "token") or c["attempt"] > 40:
+        return True
+    g = Fraction(2) if k == "equal" else Fraction(3, 2)
+    base, mx, r = Fraction(*c["base"]), Fraction(*c["max"]), Fraction(*c["r"])
+    p = g ** c["attempt"]
+    raw = base * p
+    if not (representable(p) and representable(raw)):
+        return raw > 2 * mx            # rounding cannot bring it below max_s
+    cap = min(mx, raw)
+    half = cap / 2
+    steps = [cap, half, half * r, half + half * r] if k == "equal" else [cap, half, cap - half, (cap - half) * r, half + (cap - half) * r]
+    return all(representable(x) for x in steps)
+
+
 def gq(x):
     return f"({x[0]} # {x[1]})" if x[0] >= 0 else f"(({x[0]}) # {x[1]})"
 
@@ -199,6 +232,10 @@ def run(chk):
               {"kind": "equal", "base": [0, 1], "max": [1, 1], "attempt": 1024, "r": [1, 2]}]
     exact = corpus + [gen_exact(chk.rng) for _ in range(n)]
     wild = [gen_wild(chk.rng) for _ in range(n)]
+    # cases generated for the grid whose arithmetic is not exact after all (e.g. 3**20 * 7 * (2**20 - 1) needs 55 bits): envelope only
+    off = [c for c in exact if not on_exact_grid(c)]
+    exact = [c for c in exact if on_exact_grid(c)]
+    wild += off
     obs = common.run_driver("strategies_driver", exact + wild, jobs=8)
     oe, ow = obs[:len(exact)], obs[len(exact):]
     bad = [(c, o, m) for c, o in zip(exact + wild, obs) for m in [oracle(c, o)] if m]
